@@ -85,6 +85,31 @@ def preserves_constants(cls):
           any(b.name in ("collections.namedtuple", "typing.NamedTuple") for b in cls.bases))
 
 
+def _show(x):
+  if isinstance(x, msgspec.Struct) and "name" in x.__struct_fields__:
+    return x.name
+  return repr(x)[:120]
+
+
+def order_failure(ast):
+  """None, or the first field CanonicalOrderingVisitor sorts that is not non-decreasing under the real Node.__lt__
+  of the nodes as they are NOW (for a SerializeAst result or a decoded AST: with cleared class pointers)."""
+  for n in walk(ast):
+    t = type(n).__name__
+    fields = SORTED_FIELDS.get(t, ())
+    if t == "Class" and not preserves_constants(n):
+      fields = fields + ("constants",)
+    for f in fields:
+      items = getattr(n, f)
+      if items is None:
+        continue
+      for a, b in zip(items, items[1:]):
+        if b < a:
+          return "%s.%s of %s not in canonical order (%s before %s)" % (
+              t, f, getattr(n, "name", "") or "<%s>" % t, _show(a), _show(b))
+  return None
+
+
 def oracle(env, snap, sa):
   """None, or what is wrong with the SerializableAst that SerializeAst returned."""
   cts = []
@@ -96,17 +121,9 @@ def oracle(env, snap, sa):
         return "prepare: class pointer of ClassType(%s) survives SerializeAst" % n.name
     if t in ("Class", "TypeDeclUnit") and n._name2item:  # pylint: disable=protected-access
       return "prepare: lookup cache of %s %s not cleared" % (t, n.name)
-    fields = SORTED_FIELDS.get(t, ())
-    if t == "Class" and not preserves_constants(n):
-      fields = fields + ("constants",)
-    for f in fields:
-      items = getattr(n, f)
-      if items is None:
-        continue
-      for a, b in zip(items, items[1:]):
-        if b < a:
-          return "prepare: %s.%s of %s not in canonical order (%s before %s)" % (
-              t, f, getattr(n, "name", "") or "<%s>" % t, getattr(a, "name", a), getattr(b, "name", b))
+  bad = order_failure(sa.ast)
+  if bad:
+    return "prepare: " + bad
   if decl_names(sa.ast) != snap["names"]:
     return "prepare: the declarations of some scope changed (names before/after differ)"
   deps, late = snap["deps"]
